@@ -364,4 +364,102 @@ theorem parseSH_fixed {msg : Bytes} {f : SHFixed} {m : SHMsg} {ids : Option (Lis
               obtain ⟨rfl, hids⟩ := hf
               exact ⟨hdr, v1, v2, sl, c1, c2, cm, b5, rfl, hl0, rfl, hl2, hsl, rfl, rfl, hids⟩
 
+/-! ### TLS 1.3 Certificate -/
+
+/-- `d` is exactly the concatenation of `len24 ‖ cert ‖ len16 ‖ extensions` for the listed (cert, extensions) pairs -/
+inductive Framed13 : Bytes → List (Bytes × Bytes) → Prop
+  | nil : Framed13 [] []
+  | cons (a b c : UInt8) (cert : Bytes) (e1 e2 : UInt8) (ex rest : Bytes) (es : List (Bytes × Bytes)) :
+      a.toNat * 65536 + b.toNat * 256 + c.toNat = cert.length → u16 e1 e2 = ex.length → Framed13 rest es →
+      Framed13 (a :: b :: c :: (cert ++ e1 :: e2 :: (ex ++ rest))) ((cert, ex) :: es)
+
+theorem drop_after_entry {rest r2 : Bytes} {e1 e2 : UInt8} {n k : Nat} (h : rest.drop n = e1 :: e2 :: r2) :
+    rest.drop (n + 2 + k) = r2.drop k := by
+  have e : n + 2 + k = n + (k + 2) := by omega
+  rw [e, ← List.drop_drop, h]
+  rfl
+
+theorem cert13Entries_framed : ∀ (d : Bytes) (es : List (Bytes × Bytes)), cert13Entries d = some es → Framed13 d es := by
+  intro d
+  induction d using cert13Entries.induct with
+  | case1 => intro es h; simp [cert13Entries] at h; subst h; exact Framed13.nil
+  | case2 a b c rest hle e1 e2 r2 hdrop hle2 hnone ih =>
+    intro es h
+    rw [cert13Entries] at h
+    simp [hle, hdrop, hle2, hnone] at h
+  | case3 a b c rest hle e1 e2 r2 hdrop hle2 l hsome ih =>
+    intro es h
+    rw [cert13Entries] at h
+    simp only [hle, if_true, hdrop, hle2, hsome, Option.some.injEq] at h
+    subst h
+    have e := (List.take_append_drop (a.toNat * 65536 + b.toNat * 256 + c.toNat) rest).symm
+    have e' := (List.take_append_drop (u16 e1 e2) r2).symm
+    have ih' := ih l hsome
+    rw [drop_after_entry hdrop] at ih'
+    have := Framed13.cons a b c (rest.take (a.toNat * 65536 + b.toNat * 256 + c.toNat)) e1 e2
+      (r2.take (u16 e1 e2)) (r2.drop (u16 e1 e2)) l
+      (by rw [List.length_take]; exact (Nat.min_eq_left hle).symm)
+      (by rw [List.length_take]; exact (Nat.min_eq_left hle2).symm) ih'
+    rw [← e', ← hdrop, ← e] at this
+    exact this
+  | case4 a b c rest hle e1 e2 r2 hdrop hnle =>
+    intro es h
+    rw [cert13Entries] at h
+    simp [hle, hdrop, hnle] at h
+  | case5 a b c rest hle hno =>
+    intro es h
+    rw [cert13Entries] at h
+    simp only [hle, if_true] at h
+    cases h
+  | case6 a b c rest hnle => intro es h; rw [cert13Entries] at h; simp [hnle] at h
+  | case7 x h1 h2 =>
+    intro es h
+    unfold cert13Entries at h
+    split at h
+    · exact absurd rfl h1
+    · exact absurd rfl (h2 _ _ _ _)
+    · cases h
+
+theorem parseCerts13_spec {msg : Bytes} {r : Cert13} (h : parseCerts13 msg = some r) :
+    ∃ hdr a b c lst es, msg = hdr ++ (0 :: a :: b :: c :: lst) ∧ hdr.length = 4 ∧
+      a.toNat * 65536 + b.toNat * 256 + c.toNat = lst.length ∧ Framed13 lst es ∧ r.certs = es.map (·.1) := by
+  unfold parseCerts13 at h
+  by_cases h4 : msg.length < 4
+  · rw [if_pos h4] at h; cases h
+  rw [if_neg h4] at h
+  match h1 : readVec8 (msg.drop 4), h with
+  | some ([], r1), h =>
+    simp only at h
+    match h2 : readVec24 r1, h with
+    | some (lst, []), h =>
+      simp only at h
+      match h3 : cert13Entries lst, h with
+      | some es, h =>
+        simp only at h
+        obtain ⟨z, e1, hz⟩ := readVec8_spec h1
+        obtain ⟨a, b, c, e2, hl⟩ := readVec24_spec h2
+        have hz0 : z = 0 := by
+          have : z.toNat = 0 := by simpa using hz
+          exact UInt8.toNat_inj.mp (by simpa using this)
+        subst hz0
+        have hm : msg = msg.take 4 ++ (0 :: a :: b :: c :: lst) := by
+          have := (List.take_append_drop 4 msg).symm
+          rw [e1, e2] at this
+          simpa using this
+        refine ⟨msg.take 4, a, b, c, lst, es, hm, by rw [List.length_take]; omega, hl, cert13Entries_framed lst es h3, ?_⟩
+        by_cases hall : (es.all fun e => (splitExts e.2).isSome) = true
+        · rw [if_pos hall] at h
+          match es, h with
+          | [], h => simp only [Option.some.injEq] at h; subst h; rfl
+          | (c0, ex) :: t, h =>
+            simp only at h
+            match splitExts ex, h with
+            | some xs, h =>
+              simp only at h
+              match cert13LeafExts false false xs, h with
+              | some (o, s), h =>
+                simp only [Option.some.injEq] at h
+                subst h; rfl
+        · rw [if_neg hall] at h; cases h
+
 end ZV.C28
